@@ -73,3 +73,45 @@ def interpolate_preflagged():
     check("C17.preflagged.untouched", And(cell_kind(out, "temperature") == kt, implies(kt == NUM, cell_val(out, "temperature") == vt),
                                           cell_kind(out, "interpolated_temperature") == kf,
                                           implies(kf == NUM, cell_val(out, "interpolated_temperature") == vf)))
+
+
+HD = repo("opendsm/eemeter/models/hourly/data.py::_HourlyData")
+
+
+@harness("C17.set_data", prop="C17", permissive=True, cases=[{"electric": True, "ghi": False}, {"electric": False, "ghi": False}, {"electric": True, "ghi": True}])
+def set_data_row(electric, ghi):
+    """_HourlyData._set_data end to end for one arbitrary label of an arbitrary on-the-hour frame: copy, zero -> NaN (electric only), first
+    duplicate kept, whole-day hourly grid, interpolation with flags."""
+    cols = ["observed", "temperature"]
+    if ghi:
+        cols = cols + ["ghi"]
+    df = row_frame(cols, label="input", multiplicity="any")        # the label may be absent, present once or duplicated
+    k0 = []
+    v0 = []
+    for c in cols:
+        k0.append(cell_kind(df, c))
+        v0.append(cell_val(df, c))
+    supplied = df.mult > 0
+    # precondition of the property: on-the-hour hourly input, so every supplied label is a point of the whole-day hourly grid between the
+    # first and the last supplied day (that the grid itself is right -- whole LOCAL days, DST -- is the bounded part)
+    assume(implies(supplied, on_grid()))
+    obj = new_object(HD, warnings=fresh_seq("warnings"), disqualification=fresh_seq("disqualification"), is_electricity_data=electric, tz=None, pv_start=None,
+                     _kwargs={}, _outputs=["temperature", "observed"], _to_be_interpolated_columns=[])
+    out = obj._set_data(df)
+    check("C17.set_data.input_untouched", Not(df.mutated))
+    # every supplied label is on the grid exactly once
+    check("C17.set_data.on_grid_once", implies(supplied, out.mult == 1))
+    i = 0
+    for c in cols:
+        k1 = cell_kind(out, c)
+        v1 = cell_val(out, c)
+        flag = cell_val(out, "interpolated_" + c)
+        missing0 = Or(Not(supplied), k0[i] == NAN)
+        if c == "observed" and electric:
+            missing0 = Or(missing0, And(k0[i] == NUM, v0[i] == 0))
+        check("C17.set_data.keep." + c, implies(And(Not(missing0), out.mult > 0), And(k1 == k0[i], implies(k0[i] == NUM, v1 == v0[i]))))
+        check("C17.set_data.flag." + c, implies(out.mult > 0, iff(flag, And(missing0, k1 != NAN))))
+        i = i + 1
+    cover("C17.cover.set_data.zero", And(supplied, k0[0] == NUM, v0[0] == 0))
+    cover("C17.cover.set_data.absent_row", And(Not(supplied), out.mult > 0))
+    cover("C17.cover.set_data.duplicated", df.mult > 1)
